@@ -55,11 +55,13 @@ def schema_xsd(nf, kind, level, typ, loc, sel):
             f'<xs:choice minOccurs="0" maxOccurs="unbounded">'
             f'<xs:element name="k" type="t:row"/><xs:element name="f" type="t:row"/>'
             f'<xs:element name="i" type="t:idrow"/><xs:element name="p" type="t:refrow"/>'
+            f'<xs:element name="j" type="xs:ID"/><xs:element name="q" type="t:refsrow"/>'
             f'</xs:choice></xs:complexType>{cons if level == "inner" else ""}</xs:element>'
             f'</xs:sequence></xs:complexType>{cons if level == "outer" else ""}</xs:element>'
             f'<xs:complexType name="row">{row}</xs:complexType>'
             f'<xs:complexType name="idrow"><xs:attribute name="id" type="xs:ID"/></xs:complexType>'
             f'<xs:complexType name="refrow"><xs:attribute name="ref" type="xs:IDREF"/></xs:complexType>'
+            f'<xs:complexType name="refsrow"><xs:attribute name="refs" type="xs:IDREFS"/></xs:complexType>'
             f'</xs:schema>')
 
 
@@ -86,6 +88,10 @@ def doc_xml(doc, typ, loc):
                     out.append(f"<t:{k}>{ch}</t:{k}>")
             elif k == "i":
                 out.append(f'<t:i id="id_{t[0]}"/>')
+            elif k == "j":
+                out.append(f"<t:j> id_{t[0]} </t:j>")
+            elif k == "q":
+                out.append(f'<t:q refs="id_{t[0]}  id_{t[1]}"/>')
             else:
                 out.append(f'<t:p ref="id_{t[0]}"/>')
         out.append("</t:s>")
@@ -104,7 +110,7 @@ def kinds_of(errors):
             ks.add("missing")
         elif "not found for" in msg:
             ks.add("dangling")
-        elif "duplicated xs:ID" in msg:
+        elif "duplicated xs:ID" in msg or "no more than one attribute of type ID" in msg:
             ks.add("iddup")
         elif "IDREF" in msg and "not found" in msg:
             ks.add("idref")
@@ -120,6 +126,8 @@ def judge(job):
     rec, variants = job
     out = []
     for ver, typ, loc, sel in variants:
+        if rec.get("idver"):
+            ver = rec["idver"]       # the expectation of this record is the one of that XSD version
         key = (ver, rec["nf"], rec["kind"], rec["level"], typ, loc, sel)
         if key not in _schemas:
             s, err = cm.build(ver, schema_xsd(rec["nf"], rec["kind"], rec["level"], typ, loc, sel))
@@ -186,7 +194,7 @@ def validate_identity_traces(ctx, nf, kind, level, trs, tag):
     path.write_text(json.dumps([{"doc": t["doc"], "ev": t["ev"]} for t in trs]))
     cfg = ("SPECIFICATION TSpec\nCONSTRAINT Mark\nPOSTCONDITION Post\nCHECK_DEADLOCK FALSE\nCONSTANTS\n"
            f' NF = {nf}\n KeyKind = "{kind}"\n Level = "{level}"\n MaxRows = 99\n MaxScopes = 99\n'
-           ' RowKinds = {"k", "f", "i", "p"}\n')
+           ' RowKinds = {"k", "f", "i", "p", "j", "q"}\n IdVer = "1.0"\n')
     r = ctx.tlc("Trace_Identity", cfg_text=cfg, workers=1, env={"TRACE_FILE": str(path)}, tag=f"trace-{tag}")
     flat = re.sub(r"\s+", " ", r.out)
     m = re.search(r'<< ?"rejected", \{([^}]*)\} ?>>', flat)
@@ -203,7 +211,7 @@ def validate_identity_traces(ctx, nf, kind, level, trs, tag):
 def trace_phase(ctx: Ctx, recs, thorough):
     import collections
     groups = collections.defaultdict(list)
-    pick = [r for i, r in enumerate(recs) if thorough or i % 3 == 0]
+    pick = [r for i, r in enumerate(recs) if (thorough or i % 3 == 0) and not r.get("idver")]
     jobs = [(r, "1.0" if i % 2 else "1.1", ("integer", "string", "decimal")[i % 3], "attr" if i % 4 < 2 else "elem")
             for i, r in enumerate(pick)]
     for (r, *_), tr in zip(jobs, ctx.pmap(trace_job, jobs)):
@@ -253,11 +261,14 @@ def configs(tier):
             for level in ("inner", "outer"):
                 out.append({"NF": nf, "KeyKind": f'"{kind}"', "Level": f'"{level}"',
                             "MaxRows": 3 if (tier == "quick" or nf == 2) else 4, "MaxScopes": 2,
-                            "RowKinds": '{"k", "f"}'})
+                            "RowKinds": '{"k", "f"}', "IdVer": '"1.0"'})
     out.append({"NF": 1, "KeyKind": '"key"', "Level": '"outer"', "MaxRows": 4 if tier == "quick" else 5,
-                "MaxScopes": 2, "RowKinds": '{"i", "p"}'})
+                "MaxScopes": 2, "RowKinds": '{"i", "p"}', "IdVer": '"1.0"'})
     out.append({"NF": 1, "KeyKind": '"key"', "Level": '"inner"', "MaxRows": 3, "MaxScopes": 2,
-                "RowKinds": '{"k", "f", "i", "p"}'})
+                "RowKinds": '{"k", "f", "i", "p"}', "IdVer": '"1.0"'})
+    for idver in ("1.0", "1.1"):        # an ID-typed child element binds differently in the two versions
+        out.append({"NF": 1, "KeyKind": '"key"', "Level": '"outer"', "MaxRows": 3 if tier == "quick" else 4,
+                    "MaxScopes": 2, "RowKinds": '{"i", "j", "p", "q"}', "IdVer": f'"{idver}"'})
     return out
 
 
@@ -278,8 +289,12 @@ def run(ctx: Ctx):
                                                  tag=f"{c['NF']}{c['KeyKind']}{c['Level']}".replace('"', '')))
                             for c in cfgs], width=4)
     recs = []
-    for r in results:
-        recs += [x for x in r.json_records() if canonical(x)]
+    for c, r in zip(cfgs, results):
+        for x in r.json_records():
+            if canonical(x):
+                if '"j"' in c["RowKinds"]:
+                    x["idver"] = c["IdVer"].strip('"')
+                recs.append(x)
     jobs = [(rec, variants_for(i, thorough)) for i, rec in enumerate(recs)]
     res = ctx.pmap(judge, jobs)
     n = 0
